@@ -263,24 +263,24 @@ def reg(pid, theorems, run, assumptions):
     PROPS[pid] = dict(theorems=theorems, run=run, assumptions=assumptions)
 
 
-COMMON_S_THEOREMS = ["TM.next_sound"]
+COMMON_S_THEOREMS = ["Props.acceptor_sound"]
 
-reg("C02", ["TM.C02_deps_before_start", "VM.C01_core"] + COMMON_S_THEOREMS,
+reg("C02", ["Props.C02_deps_before_start", "Props.C01_core"] + COMMON_S_THEOREMS,
     lambda pid, tier, seed: run_S(pid, tier, seed), ASSUME_S)
-reg("C03", ["TM.C03_start_at_most_once", "TM.C03_exactly_once_at_done", "TM.C03_only_selected"] + COMMON_S_THEOREMS,
+reg("C03", ["Props.C03_start_at_most_once", "Props.C03_exactly_once_at_done", "Props.C03_only_selected"] + COMMON_S_THEOREMS,
     lambda pid, tier, seed: run_S(pid, tier, seed), ASSUME_S)
-reg("C04", ["TM.C04_inflight_le_maxc"] + COMMON_S_THEOREMS,
+reg("C04", ["Props.C04_inflight_le_maxc"] + COMMON_S_THEOREMS,
     lambda pid, tier, seed: run_S(pid, tier, seed),
     ASSUME_S + ["OS thread identity is observed by the harness (enter events), not modelled"])
-reg("C05", ["TM.C05_sequential_exclusive"] + COMMON_S_THEOREMS,
+reg("C05", ["Props.C05_sequential_exclusive"] + COMMON_S_THEOREMS,
     lambda pid, tier, seed: run_S(pid, tier, seed), ASSUME_S)
-reg("C06", ["TM.C06_best_ready", "GM.C07_cp_is_own_plus_distinct_descendants"] + COMMON_S_THEOREMS,
+reg("C06", ["Props.C06_best_ready", "Props.C07_cp_is_own_plus_distinct_descendants"] + COMMON_S_THEOREMS,
     lambda pid, tier, seed: run_S(pid, tier, seed, cp_mode="spec"), ASSUME_S)
-reg("C08", ["TM.C08_partial", "TM.C08_mixed_witness", "TM.w_run", "TM.w_blocks"] + COMMON_S_THEOREMS,
+reg("C08", ["Props.C08_partial", "Props.C08_mixed_witness", "TM.w_run", "TM.w_blocks"] + COMMON_S_THEOREMS,
     lambda pid, tier, seed: run_S(pid, tier, seed), ASSUME_S)
-reg("C09", ["TM.C09_bound", "TM.C09_progress", "TM.M_step", "TM.rank_decreases"] + COMMON_S_THEOREMS,
+reg("C09", ["Props.C09_bound", "Props.C09_progress", "TM.M_step", "TM.rank_decreases"] + COMMON_S_THEOREMS,
     lambda pid, tier, seed: run_S(pid, tier, seed), ASSUME_S)
-reg("C14", ["TM.C14_err_terminal", "TM.C14_err_is_node_failure", "TM.C14_no_dependent_of_failed"] + COMMON_S_THEOREMS,
+reg("C14", ["Props.C14_err_terminal", "Props.C14_err_is_node_failure", "Props.C14_no_dependent_of_failed"] + COMMON_S_THEOREMS,
     lambda pid, tier, seed: run_S(pid, tier, seed),
     ASSUME_S + ["exception message / call-location formatting is checked on every failing run, not proved"])
 
@@ -633,11 +633,11 @@ ASSUME_G = [
     "alias resolution (reference / tag / id) is modelled in the harness, not in Lean",
 ]
 
-reg("C07", ["GM.C07_cp_is_own_plus_distinct_descendants", "GM.C07_cp_order_independent", "GM.mem_descAll_iff",
-            "GM.descAll_nodup", "GM.C07_pinned_counts_paths", "GM.C07_pinned_order_dependent"],
+reg("C07", ["Props.C07_cp_is_own_plus_distinct_descendants", "GM.C07_cp_order_independent", "GM.mem_descAll_iff",
+            "GM.descAll_nodup", "Props.C07_pinned_counts_paths", "GM.C07_pinned_order_dependent"],
     run_G, ASSUME_G)
-reg("C12", ["GM.C12_closure", "GM.selectNodes_spec", "GM.selectNodes_none", "GM.mem_descAll_iff"], run_G, ASSUME_G)
-reg("C13", ["GM.C13_pulled_debug_has_inputs", "GM.C13_flag_off_no_debug", "GM.selectNodes_spec"], run_G, ASSUME_G)
+reg("C12", ["GM.C12_closure", "Props.C12_selection_is_closure", "GM.selectNodes_none", "GM.mem_descAll_iff"], run_G, ASSUME_G)
+reg("C13", ["Props.C13_pulled_debug_has_inputs", "Props.C13_flag_off_no_debug", "Props.C12_selection_is_closure"], run_G, ASSUME_G)
 
 
 # ---------------------------------------------------------------------------------------------
@@ -859,9 +859,9 @@ ASSUME_V = [
     "fragment: a container of results is not a result (depth-1 return shapes, components passed on individually)",
 ]
 
-reg("C01", ["VM.C01_core", "VM.C01_flat", "VM.traceBody_good", "TM.C09_bound"], run_V, ASSUME_V)
-reg("C20", ["VM.C01_core", "VM.C01_flat"], run_V, ASSUME_V)
-reg("C10", ["VM.C01_core", "VM.C01_flat"], run_V, ASSUME_V)
+reg("C01", ["Props.C01_core", "Props.C01_flat_partial", "VM.traceBody_good", "Props.C09_bound"], run_V, ASSUME_V)
+reg("C20", ["Props.C01_core", "Props.C01_flat_partial"], run_V, ASSUME_V)
+reg("C10", ["Props.C01_core", "Props.C01_flat_partial"], run_V, ASSUME_V)
 
 
 # ---------------------------------------------------------------------------------------------
@@ -1015,9 +1015,9 @@ ASSUME_H = [
     "deep copy forks the instance state; pickle round-trips the plain values used (trusted)",
     "setup nodes are not run concurrently for the first time (excluded by the property statements)",
 ]
-reg("C11", ["VM.C11_setup_at_most_once", "VM.applyOp_res_keep", "VM.not_entered_of_res"], run_H, ASSUME_H)
-reg("C15", ["VM.runHistory_res_nonsetup", "VM.applyOp_res_nonsetup", "VM.C01_core"], run_H, ASSUME_H)
-reg("C18", ["VM.C18_restart_same", "VM.denote_seeded"], run_H, ASSUME_H)
+reg("C11", ["Props.C11_setup_at_most_once", "Props.C11_first_value_kept", "VM.not_entered_of_res"], run_H, ASSUME_H)
+reg("C15", ["Props.C15_no_state_but_setup", "VM.applyOp_res_nonsetup", "Props.C01_core"], run_H, ASSUME_H)
+reg("C18", ["Props.C18_restart_same", "VM.denote_seeded"], run_H, ASSUME_H)
 
 
 # ---------------------------------------------------------------------------------------------
@@ -1156,7 +1156,7 @@ ASSUME_C = [
     "node functions deterministic; alias resolution modelled in the harness",
     "the composed DAG's fresh parameter ids are glue (the model keeps the node's index and makes it a precomputed holder)",
 ]
-reg("C19", ["VM.C18_restart_same", "VM.C01_core"], run_C, ASSUME_C)
+reg("C19", ["Props.C18_restart_same", "Props.C01_core"], run_C, ASSUME_C)
 
 
 # ---------------------------------------------------------------------------------------------
@@ -1249,7 +1249,7 @@ ASSUME_T = [
     "setup nodes have run before a DAG is shared between threads (excluded by the statement)",
     "OS thread identity / scheduling is the runtime's; the harness serialises the scripted actions with a condition variable",
 ]
-reg("C16", ["TH.C16_owner_safe", "TH.C16_pinned_witness", "TH.C16_owner_same_schedule"], run_T, ASSUME_T)
+reg("C16", ["Props.C16_owner_safe", "Props.C16_pinned_witness", "TH.C16_owner_same_schedule"], run_T, ASSUME_T)
 
 
 # ---------------------------------------------------------------------------------------------
@@ -1297,5 +1297,5 @@ def run_A(pid, tier, seed):
     return coverage, failures, None
 
 
-reg("C17", ["TM.C17c_partial", "TM.C17c_mixed_witness", "VM.C01_core", "TM.next_sound"], run_A,
+reg("C17", ["Props.C17c_partial", "Props.C17c_mixed_witness", "Props.C01_core", "Props.acceptor_sound"], run_A,
     ASSUME_V + ["the event loop's own fairness is trusted (asyncio)", "both flavours run the same coroutine async_execute (DAG drives it with asyncio.run): flavour equality is definitional in the model, the content is in the tie"])
